@@ -15,3 +15,15 @@ PROPS = {
                 note=TB,
                 assumptions=["Go runtime", "reference FIFO (slice) in the harness"]),
 }
+PROPS["C15"] = dict(pkg="stanza", test="TestVf_C15", race=False, level="exploration", timeout=(120, 900), floor=1000,
+    technique="runtime monitor: reference JID splitter + Full()/Bare() re-parse round trip over generated strings",
+    text="Quick 50k / thorough 5M strings assembled from (local, domain, resource) triples over accepted, whitespace, forbidden and unlisted character classes plus arbitrary strings; a 40-line reference splitter (the statement as code) decides the expected parts and must-accept/must-reject; every accepted JID is rendered with Full() and Bare() and parsed again. Strings with '/' before the first '@' are only checked for totality, characters the statement does not classify carry no accept/reject assertion.",
+    note=TB, assumptions=["reference splitter in harness/stanza/c15_test.go", "unicode.IsSpace as the definition of whitespace"])
+PROPS["C19"] = dict(pkg="xmpp", test="TestVf_C19", race=False, level="exploration", timeout=(120, 900), floor=1000,
+    technique="runtime monitor: math/big reference for min(cap, base*factor^n) on generated settings",
+    text="Quick 20k / thorough 2M settings (base, factor in [1,1e6], cap in [1,MaxInt64/1e6] ms, library defaults, jitter on/off) x attempt numbers 0..70, 1e3, 1e6, MaxInt32, through the per-attempt query (also in shuffled order: it is documented stateless) and through duration() sequences separated by reset(); equality with an exact big-integer reference without jitter, range [0, reference] with jitter, never negative, never above cap, non-decreasing. Caps above MaxInt64/1e6 ms cannot be represented in the returned time.Duration and are outside the bounds.",
+    note=TB, assumptions=["math/big reference", "jittered values only range-checked (library uses the global math/rand)"])
+PROPS["C20"] = dict(pkg="xmpp", test="TestVf_C20", race=False, level="exploration", timeout=(120, 900), floor=1000,
+    technique="runtime monitor: net.SplitHostPort oracle on the address held by the constructed transport",
+    text="Quick 20k / thorough 1M generated addresses (DNS names with digit/hyphen/punycode labels and trailing dot, IPv4, IPv6 in full/compressed/::/v4-mapped/zoned/upper-case shapes, bracketed or bare, port absent or any of 1..65535; thorough sweeps every port) are passed to ensurePort, NewClientTransport, NewComponentTransport and NewClient; the address the transport would dial must split with net.SplitHostPort into exactly the given host and the given port or 5222. ws:/wss: URLs must give a WebsocketTransport for clients and ErrTransportProtocolNotSupported (also from Component.Connect) for components.",
+    note=TB, assumptions=["net.SplitHostPort as the definition of a dialable host:port"])
